@@ -89,6 +89,26 @@ theorem ginv_newEntity (w : World) (issued live : List Entity) (G : GInv w issue
     rw [he]
     exact ginv_createEntity w1 issued live G1 t htlt hact
 
+
+/-- the handle `NewEntity` returns is the one the pool hands out -/
+theorem newEntity_handle (w : World) (issued live : List Entity) (G : GInv w issued live) (comps : List CompId)
+    (hreg : ∀ id ∈ comps, id < w.reg.count) (e : Entity) (hok : (w.newEntity comps).out = .ok e) : e = (w.pool.get).2 := by
+  unfold newEntity at hok
+  by_cases hl : w.isLocked = true
+  · simp [hl, World.fail] at hok
+  simp only [hl, Bool.false_eq_true, ↓reduceIte] at hok
+  generalize hft : (if comps.isEmpty = true then (w, Except.ok 0) else w.findOrCreateTable 0 comps [] Entity.zero) = ft at hok
+  obtain ⟨w1, r⟩ := ft
+  cases r with
+  | error p => simp [World.fail] at hok
+  | ok t =>
+    simp only [] at hok
+    obtain ⟨G1, _, _, m1, _, _⟩ := ginv_creationTable w issued live G comps Entity.zero hreg comps.isEmpty
+      (by intro h; exact List.isEmpty_iff.1 h) w1 t hft
+    obtain ⟨free, hL⟩ := G1.link
+    simp only [Except.ok.injEq] at hok
+    rw [← hok, (createEntity_eq w1 t hL.fsize).1, m1.pool]
+
 /-- `createEntities`: `n` handles are taken from the pool one after the other -/
 theorem ginv_createEntities (t : Nat) : ∀ (n : Nat) (w : World) (issued live : List Entity), GInv w issued live → t < w.tables.size →
     (w.tableOf t).active = true →
@@ -450,5 +470,48 @@ theorem ginv_registerComponent (w : World) (issued live : List Entity) (G : GInv
     exact Nat.lt_succ_of_lt (G.b n (by rw [← hn]; exact hn') c hc)
   · rw [← hw']; exact ⟨G.root.size, G.root.mask⟩
   · rw [← hw']; exact linv_transfer (w := w) G.k rfl rfl rfl (fun _ _ _ => rfl) hL
+
+
+/-! ## reset -/
+
+open Arche.Props.C15 Arche.Reset in
+/-- `World.Reset`: the invariant holds again, with no handle issued and none live -/
+theorem ginv_reset (w : World) (issued live : List Entity) (G : GInv w issued live) (hl : w.isLocked = false) :
+    (w.reset).out = .ok () ∧ GInv (w.reset).w [] [] := by
+  obtain ⟨free, hL⟩ := G.link
+  have hz : loc w 0 = none := by
+    cases h0 : loc w 0 with
+    | none => rfl
+    | some l =>
+      exfalso
+      obtain ⟨_, hid⟩ := G.k.idx.fwd 0 l h0
+      have hm : (rowAt w l.tbl l.row).ent ∈ live := (hL.stored _).2 ⟨l, by rw [hid]; exact h0, rfl⟩
+      have := ((hL.pool.live_iff _).1 hm).1
+      omega
+  obtain ⟨hout, s, k, hts, _, _, _, hnoloc, hpool, _, _, _, hreg, hcfg, _⟩ := reset_spec w G.k G.s hl hz
+  refine ⟨hout, ?_⟩
+  have hS0 : SInv (resetHead w) := sinv_congr (w := w) rfl rfl rfl rfl G.s
+  obtain ⟨c, _⟩ := resetAll (resetHead w) hS0
+  have hw : (w.reset).w = (List.range (resetHead w).nodes.size).foldl resetNode (resetHead w) := by rw [reset_eq w hl]
+  rw [← hw] at c
+  have ds : DSame w (w.reset).w := by
+    have d0 : DSame w (resetHead w) := DSame.of_nodes rfl rfl rfl
+    obtain ⟨_, _, _, _, _, r6, r7, _⟩ := c.rest
+    exact DSame.trans d0 ⟨r7, r6, c.nsize, fun n => ⟨(c.graph n).2.2, (c.graph n).2.1, (c.nodes n).2.1⟩⟩
+  have hmask : (w.reset).w.tableMask 0 = w.tableMask 0 := by
+    unfold tableMask nodeOfTable
+    rw [(c.tnode 0).1, (c.graph _).2.1]; rfl
+  obtain ⟨r1, r2, r3, _⟩ := c.rest
+  have hisz : 1 ≤ w.index.size := by rw [hL.isize]; exact hL.pool.size_pos
+  refine ⟨k, s, ds.dinv G.d, binv_of_dsame ds G.b, ⟨by rw [hts]; exact G.root.size, by rw [hmask]; exact G.root.mask⟩, [], ?_⟩
+  refine ⟨by rw [hpool]; exact PoolInv.reset_inv w.pool issued live free hL.pool, ?_, ?_, ?_⟩
+  · rw [r1, hpool]; unfold resetHead Pool.reset; simp only [Array.size_extract]
+    have := hL.isize; omega
+  · rw [r3, r1]; unfold resetHead; simp only [Array.size_extract]
+    have := hL.fsize; omega
+  · intro e
+    constructor
+    · intro h; cases h
+    · rintro ⟨l, h1, _⟩; rw [hnoloc] at h1; cases h1
 
 end Arche.GOps
